@@ -1,5 +1,6 @@
 import Sebuf.Validate
 import Sebuf.Rules
+import Sebuf.Lemmas.PropsC12
 /-!
 # C12 — misused annotations stop generation; valid definitions are never refused
 
@@ -14,51 +15,14 @@ enum conflicts on non-map fields.
 The theorems are about `Impl.runGoHttp`/`runGoClient`, which interpret the call sequence of
 `generateFile` regenerated into `Gen.Wiring` on every run: `wiring_*` are closed by `decide`
 over the current sequence.
+
+Helper lemmas (list plumbing, validator-to-run steps, the per-rule `*_fires` lemmas) and the
+definitions `beforeCut` / `stepHas` are in `Sebuf.Lemmas.PropsC12`.
 -/
 namespace Sebuf.C12
 open Sebuf Sebuf.Impl Sebuf.Spec
 
-/-! ## list helpers -/
-
-theorem findSome_isSome {α β} {l : List α} {f : α → Option β} {a : α}
-    (h : a ∈ l) (hf : (f a).isSome = true) : (l.findSome? f).isSome = true := by
-  induction l with
-  | nil => cases h
-  | cons x t ih =>
-    simp only [List.findSome?]
-    cases hx : f x with
-    | some b => simp
-    | none =>
-      simp only
-      rcases List.mem_cons.mp h with rfl | h'
-      · rw [hx] at hf; cases hf
-      · exact ih h'
-
-theorem find_isSome {α} {l : List α} {p : α → Bool} {a : α}
-    (h : a ∈ l) (hp : p a = true) : (l.find? p).isSome = true := by
-  induction l with
-  | nil => cases h
-  | cons x t ih =>
-    simp only [List.find?]
-    cases hx : p x with
-    | true => simp
-    | false =>
-      simp only
-      rcases List.mem_cons.mp h with rfl | h'
-      · rw [hx] at hp; cases hp
-      · exact ih h'
-
-theorem isSome_of_eq_some {α} {o : Option α} {a : α} (h : o = some a) : o.isSome = true := by
-  subst h; rfl
-
 /-! ## wiring: which validators run, and where -/
-
-/-- steps strictly before `if len(file.Services) == 0 { return nil }`. -/
-def beforeCut : List Gen.Wiring.Step → List Gen.Wiring.Step
-  | [] => []
-  | st :: r => if st.1 == "return_if_no_services" then [] else st :: beforeCut r
-
-def stepHas (st : Gen.Wiring.Step) (v : V) : Bool := st.2.1.any (fun n => V.ofName n == some v)
 
 def requiredJson : List V :=
   [.enumConflict, .nullable, .emptyBehavior, .timestamp, .bytes, .flattenField, .oneof]
@@ -88,86 +52,6 @@ theorem wiring_skips_imported :
 
 /-! ## from one validator to the whole run -/
 
-theorem runStep_of_validator (rq : Request) (f : File) (st : Gen.Wiring.Step) (v : V)
-    (hv : stepHas st v = true) (h : (applyV rq f st.2.2 v).isSome = true) :
-    (runStep rq f st).isSome = true := by
-  unfold stepHas at hv
-  obtain ⟨n, hn, hnv⟩ := List.any_eq_true.mp hv
-  unfold runStep
-  refine findSome_isSome hn ?_
-  unfold applyValidator
-  have : V.ofName n = some v := by simpa using hnv
-  rw [this]; exact h
-
-theorem runSteps_of_beforeCut (rq : Request) (f : File) :
-    ∀ (steps : List Gen.Wiring.Step) (st : Gen.Wiring.Step), st ∈ beforeCut steps →
-      (runStep rq f st).isSome = true → (runSteps rq f steps).isSome = true := by
-  intro steps
-  induction steps with
-  | nil => intro st h; cases h
-  | cons s t ih =>
-    intro st hmem hs
-    unfold beforeCut at hmem
-    unfold runSteps
-    by_cases hc : (s.1 == "return_if_no_services") = true
-    · simp [hc] at hmem
-    · simp only [hc] at hmem ⊢
-      simp only [Bool.false_eq_true, if_false]
-      rcases List.mem_cons.mp hmem with rfl | h'
-      · cases hr : runStep rq f st with
-        | some e => simp
-        | none => rw [hr] at hs; cases hs
-      · cases hr : runStep rq f s with
-        | some e => simp
-        | none => simpa using ih st h' hs
-
-theorem runSteps_of_mem (rq : Request) (f : File) (hsv : f.services.isEmpty = false) :
-    ∀ (steps : List Gen.Wiring.Step) (st : Gen.Wiring.Step), st ∈ steps →
-      (st.1 == "return_if_no_services") = false →
-      (runStep rq f st).isSome = true → (runSteps rq f steps).isSome = true := by
-  intro steps
-  induction steps with
-  | nil => intro st h; cases h
-  | cons s t ih =>
-    intro st hmem hne hs
-    unfold runSteps
-    by_cases hc : (s.1 == "return_if_no_services") = true
-    · simp only [hc, if_true, hsv, Bool.false_eq_true, if_false]
-      rcases List.mem_cons.mp hmem with rfl | h'
-      · rw [hc] at hne; cases hne
-      · exact ih st h' hne hs
-    · simp only [hc, Bool.false_eq_true, if_false]
-      rcases List.mem_cons.mp hmem with rfl | h'
-      · cases hr : runStep rq f st with
-        | some e => simp
-        | none => rw [hr] at hs; cases hs
-      · cases hr : runStep rq f s with
-        | some e => simp
-        | none => simpa using ih st h' hne hs
-
-theorem runGoHttp_of_file (rq : Request) (f : File) (hf : f ∈ generated rq)
-    (h : (runSteps rq f Gen.Wiring.goHttp).isSome = true) : (runGoHttp rq).isSome = true := by
-  unfold runGoHttp
-  simp only
-  split
-  · simp
-  · exact findSome_isSome hf h
-
-theorem runGoHttp_of_unwrap (rq : Request) (f : File) (hf : f ∈ generated rq) (m : Message)
-    (hm : m ∈ f.messages) (h : (unwrapCheck m).isSome = true) : (runGoHttp rq).isSome = true := by
-  unfold runGoHttp
-  simp only [wiring_unwrap, if_true]
-  have : ((generated rq).findSome? fun f => f.messages.findSome? unwrapCheck).isSome = true :=
-    findSome_isSome hf (findSome_isSome hm h)
-  cases hp : ((generated rq).findSome? fun f => f.messages.findSome? unwrapCheck) with
-  | some e => simp
-  | none => rw [hp] at this; cases this
-
-theorem runGoClient_of_file (rq : Request) (f : File) (hf : f ∈ generated rq)
-    (h : (runSteps rq f Gen.Wiring.goClient).isSome = true) : (runGoClient rq).isSome = true := by
-  unfold runGoClient
-  exact findSome_isSome hf h
-
 /-- a JSON-mapping validator that fires on a generated file stops go-http. -/
 theorem goHttp_rejects (rq : Request) (f : File) (hf : f ∈ generated rq) (v : V) (hv : v ∈ requiredJson)
     (h : (applyV rq f true v).isSome = true) : (runGoHttp rq).isSome = true := by
@@ -175,277 +59,12 @@ theorem goHttp_rejects (rq : Request) (f : File) (hf : f ∈ generated rq) (v : 
   refine runGoHttp_of_file rq f hf (runSteps_of_beforeCut rq f _ st hst ?_)
   exact runStep_of_validator rq f st v hhas (by rw [hn]; exact h)
 
+/-- a JSON-mapping validator that fires on a generated file stops go-client. -/
 theorem goClient_rejects (rq : Request) (f : File) (hf : f ∈ generated rq) (v : V) (hv : v ∈ requiredJson)
     (h : (applyV rq f true v).isSome = true) : (runGoClient rq).isSome = true := by
   obtain ⟨st, hst, hhas, hn⟩ := wiring_goClient v hv
   refine runGoClient_of_file rq f hf (runSteps_of_beforeCut rq f _ st hst ?_)
   exact runStep_of_validator rq f st v hhas (by rw [hn]; exact h)
-
-theorem perField_isSome (f : File) (m : Message) (fld : Field) (chk : Field → Verdict)
-    (hm : m ∈ f.messages) (hfld : fld ∈ m.fields) (h : (chk fld).isSome = true) :
-    (perField (msgsOf f true) chk).isSome = true := by
-  unfold perField msgsOf
-  simp only [if_true]
-  exact findSome_isSome hm (findSome_isSome hfld h)
-
-/-! ## each rule of the property fires its validator -/
-
-theorem nullable_fires (fld : Field) (h : fld.nullable = true)
-    (h2 : fld.card ≠ .optional ∨ fld.kind = .message) : (nullableCheck fld).isSome = true := by
-  unfold nullableCheck Field.descKind
-  rcases h2 with h2 | h2
-  · simp [h, h2]
-  · by_cases hc : fld.card = .optional
-    · simp [h, hc, h2]
-    · simp [h, hc]
-
-theorem emptyBehavior_fires (fld : Field) (h : fld.emptyBehavior ≠ 0)
-    (h2 : fld.kind ≠ .message ∨ fld.card = .repeated ∨ fld.card = .map) :
-    (emptyBehaviorCheck fld).isSome = true := by
-  unfold emptyBehaviorCheck Field.descKind Field.isList Field.isMap
-  rcases h2 with h2 | h2 | h2
-  · by_cases hm : fld.card = .map
-    · simp [h, hm]
-    · simp [h, hm, h2]
-  · simp [h, h2]
-  · simp [h, h2]
-
-theorem timestamp_fires (fld : Field) (h : fld.tsFormat ≠ 0) (h2 : isTs fld = false) :
-    (timestampCheck fld).isSome = true := by
-  unfold timestampCheck Field.isTimestamp Field.descKind
-  unfold isTs at h2
-  by_cases hm : fld.card = .map
-  · simp [h, hm]
-  · simp [hm] at h2 ⊢
-    simp [h]
-    by_cases hk : fld.kind = .message
-    · exact Or.inr (h2 hk)
-    · exact Or.inl hk
-
-theorem bytes_fires (fld : Field) (h : fld.bytesEnc ≠ 0) (h2 : fld.kind ≠ .bytes ∨ fld.card = .map) :
-    (bytesCheck fld).isSome = true := by
-  unfold bytesCheck Field.descKind
-  rcases h2 with h2 | h2
-  · by_cases hm : fld.card = .map
-    · simp [h, hm]
-    · simp [h, hm, h2]
-  · simp [h, h2]
-
-theorem flattenField_fires (fld : Field) (h : fld.flatten = true)
-    (h2 : fld.card = .repeated ∨ fld.card = .map ∨ fld.kind ≠ .message ∨ fld.oneof.isSome = true) :
-    (flattenFieldCheck fld).isSome = true := by
-  unfold flattenFieldCheck Field.descKind Field.isList Field.isMap Field.inAnyOneof
-  rcases h2 with h2 | h2 | h2 | h2
-  · simp [h, h2]
-  · simp [h, h2]
-  · by_cases hm : fld.card = .map
-    · simp [h, hm]
-    · by_cases hr : fld.card = .repeated
-      · simp [h, hr]
-      · simp [h, hm, hr, h2]
-  · by_cases hm : fld.card = .map
-    · simp [h, hm]
-    · by_cases hr : fld.card = .repeated
-      · simp [h, hr]
-      · by_cases hk : fld.kind = .message
-        · simp [h, hm, hr, hk, h2]
-        · simp [h, hm, hr, hk]
-
-theorem prefix_fires (fld : Field) (h : fld.flatten = false) (h2 : fld.flattenPrefix ≠ []) :
-    (flattenFieldCheck fld).isSome = true := by
-  unfold flattenFieldCheck
-  simp [h, h2]
-
-theorem enum_fires (rq : Request) (fld : Field) (hk : fld.kind = .enum) (hm : fld.card ≠ .map)
-    (he : fld.enumEnc = 2)
-    (hc : (match rq.findEnum fld.typeName with | some e => e.hasCustom | none => false) = true) :
-    (enumCheck rq fld).isSome = true := by
-  unfold enumCheck Field.descKind
-  simp [hk, hm, he]
-  exact hc
-
-
-theorem unwrapNotRepeated_fires (m : Message) (fld : Field) (hfld : fld ∈ m.fields)
-    (hu : fld.unwrap = true) (h1 : fld.card ≠ .repeated) (h2 : fld.card ≠ .map) :
-    (unwrapCheck m).isSome = true := by
-  unfold unwrapCheck
-  simp only
-  have hmem : fld ∈ m.fields.filter (·.unwrap) := List.mem_filter.mpr ⟨hfld, hu⟩
-  have hp : (fun f : Field => !f.isList && !f.isMap) fld = true := by
-    simp [Field.isList, Field.isMap, h1, h2]
-  have := find_isSome (p := fun f : Field => !f.isList && !f.isMap) hmem hp
-  cases hfind : (m.fields.filter (·.unwrap)).find? (fun f => !f.isList && !f.isMap) with
-  | some x => simp
-  | none => rw [hfind] at this; cases this
-
-theorem unwrapTwice_fires (m : Message) (a v : Field) (rest : List Field)
-    (h : m.fields.filter (·.unwrap) = a :: v :: rest) : (unwrapCheck m).isSome = true := by
-  unfold unwrapCheck
-  simp only [h]
-  cases (a :: v :: rest).find? (fun f => !f.isList && !f.isMap) with
-  | some x => simp
-  | none => simp
-
-theorem mapUnwrapNotAlone_fires (m : Message) (fld : Field)
-    (hfind : m.fields.find? (fun f => f.unwrap && f.card == .map) = some fld)
-    (hlen : m.fields.length ≠ 1) : (unwrapCheck m).isSome = true := by
-  have hfld : fld ∈ m.fields := List.mem_of_find?_eq_some hfind
-  have hp := List.find?_some hfind
-  have hu : fld.unwrap = true := by simp at hp; exact hp.1
-  have hmapc : fld.card = .map := by simp at hp; exact hp.2
-  have hmem : fld ∈ m.fields.filter (·.unwrap) := List.mem_filter.mpr ⟨hfld, hu⟩
-  unfold unwrapCheck
-  simp only
-  cases hf : (m.fields.filter (·.unwrap)).find? (fun f => !f.isList && !f.isMap) with
-  | some x => simp
-  | none =>
-    simp only
-    generalize m.fields.filter (·.unwrap) = us at hmem ⊢
-    match us, hmem with
-    | [], hm => cases hm
-    | [u], hm =>
-      have : fld = u := by simpa using hm
-      subst this
-      simp [Field.isMap, hmapc, hlen]
-    | _ :: v :: _, _ => simp
-
-/-! ### oneof rules -/
-
-theorem oneofCheck_of (rq : Request) (m : Message) (o : OneofDecl) (ho : o ∈ m.oneofs)
-    (hc : o.hasConfig = true)
-    (h : (discriminatorCollision m o).isSome = true ∨
-         (o.flatten = true ∧ (oneofFlattenCheck rq m o).isSome = true)) :
-    (oneofCheck rq m).isSome = true := by
-  unfold oneofCheck
-  refine findSome_isSome (List.mem_filter.mpr ⟨ho, hc⟩) ?_
-  cases hd : discriminatorCollision m o with
-  | some e => simp
-  | none =>
-    rcases h with h | ⟨hf, h⟩
-    · rw [hd] at h; cases h
-    · simp [hf, h]
-
-theorem discriminator_fires (m : Message) (o : OneofDecl)
-    (h : (m.fields.filter (·.oneof != some o.name)).any (·.json == o.discriminator) = true) :
-    (discriminatorCollision m o).isSome = true := by
-  unfold discriminatorCollision
-  have : m.fields.any (fun f => f.oneof != some o.name && f.json == o.discriminator) = true := by
-    rw [List.any_filter] at h; exact h
-  simp [this]
-
-theorem oneofFlattenScalar_fires (rq : Request) (m : Message) (o : OneofDecl)
-    (h : (m.fields.filter (·.oneof == some o.name)).any (·.kind != .message) = true) :
-    (oneofFlattenCheck rq m o).isSome = true := by
-  unfold oneofFlattenCheck
-  simp only [h, if_true, Option.isSome_some]
-
-theorem oneofFlattenCollision_fires (rq : Request) (m : Message) (o : OneofDecl)
-    (h : (m.fields.filter (·.oneof == some o.name)).any (fun v => v.kind == .message &&
-        (Spec.children rq v).any (fun c => c.json == o.discriminator ||
-          (m.fields.filter (·.oneof != some o.name)).any (·.json == c.json))) = true) :
-    (oneofFlattenCheck rq m o).isSome = true := by
-  unfold oneofFlattenCheck
-  simp only
-  by_cases hs : ((m.fields.filter (·.oneof == some o.name)).any (·.kind != .message)) = true
-  · rw [if_pos hs]; rfl
-  · have : (m.fields.filter (·.oneof == some o.name)).any (fun v => (childFields rq v).any
-        (fun c => (o.discriminator :: (m.fields.filter (·.oneof != some o.name)).map (·.json)).contains c.json)) = true := by
-      obtain ⟨v, hv, hvp⟩ := List.any_eq_true.mp h
-      refine List.any_eq_true.mpr ⟨v, hv, ?_⟩
-      have hvp2 := (Bool.and_eq_true _ _).mp hvp
-      obtain ⟨c, hc, hcp⟩ := List.any_eq_true.mp hvp2.2
-      have hch : Spec.children rq v = childFields rq v := rfl
-      rw [hch] at hc
-      refine List.any_eq_true.mpr ⟨c, hc, ?_⟩
-      rcases (Bool.or_eq_true _ _).mp hcp with h1 | h1
-      · have : c.json = o.discriminator := by simpa using h1
-        simp [this]
-      · obtain ⟨x, hx, hxp⟩ := List.any_eq_true.mp h1
-        have hxe : x.json = c.json := by simpa using hxp
-        simp only [List.contains_cons, Bool.or_eq_true]
-        right
-        exact List.contains_iff_mem.mpr (List.mem_map.mpr ⟨x, hx, hxe⟩)
-    rw [if_neg hs, if_pos this]; rfl
-
-/-! ### HTTP rules -/
-
-theorem orV_left {a b : Verdict} (h : a.isSome = true) : (orV a b).isSome = true := by
-  cases a with
-  | some x => rfl
-  | none => cases h
-
-theorem orV_right {a b : Verdict} (h : b.isSome = true) : (orV a b).isSome = true := by
-  cases a with
-  | some x => rfl
-  | none => exact h
-
-theorem pathVar_fires (input : Message) (p : Str)
-    (h : input.fields.find? (fun f => f.name == p) = none ∨
-         ∃ f, input.fields.find? (fun f => f.name == p) = some f ∧ scalarPathKind f.kind = false) :
-    (pathVarCheck input p).isSome = true := by
-  unfold pathVarCheck
-  rcases h with h | ⟨f, hf, hk⟩
-  · rw [h]; rfl
-  · rw [hf]
-    have : isPathParamCompatible f.descKind = false := by
-      unfold Field.descKind
-      split
-      · rfl
-      · revert hk; cases f.kind <;> simp [scalarPathKind, isPathParamCompatible]
-    simp [this]
-
-theorem methodCheck_fires (rq : Request) (meth : Method) (b : Breach) (file : Str)
-    (hb : b ∈ methodBreaches rq file meth) (hr : b.rule ≠ .pathVarNotSingular) :
-    (methodCheck rq meth).isSome = true := by
-  unfold methodBreaches at hb
-  by_cases hcfg : meth.hasConfig = true
-  · simp only [hcfg, Bool.not_true, Bool.false_eq_true, if_false] at hb
-    unfold methodCheck
-    simp only [hcfg, Bool.not_true, Bool.false_eq_true, if_false]
-    generalize (rq.findMessage meth.input).getD default = input at hb ⊢
-    rcases List.mem_append.mp hb with hb | hb
-    · rcases List.mem_append.mp hb with hb | hb
-      · -- a path variable without field / with a non-scalar field
-        obtain ⟨p, hp, hbp⟩ := List.mem_flatMap.mp hb
-        refine orV_left (findSome_isSome hp ?_)
-        cases hfnd : input.fields.find? (fun f => f.name == p) with
-        | none => exact pathVar_fires input p (Or.inl hfnd)
-        | some f =>
-          simp only [hfnd] at hbp
-          rcases List.mem_append.mp hbp with h1 | h1
-          · refine pathVar_fires input p (Or.inr ⟨f, hfnd, ?_⟩)
-            by_cases hk : scalarPathKind f.kind = true
-            · simp [hk] at h1
-            · simpa using hk
-          · exfalso
-            by_cases hc : (f.card == .repeated || f.card == .map) = true
-            · simp only [hc, if_true, List.mem_singleton] at h1
-              apply hr; rw [h1]
-            · simp [hc] at h1
-      · -- a field both path and query
-        obtain ⟨q, hq, _⟩ := List.mem_map.mp hb
-        have hq' := List.mem_filter.mp hq
-        refine orV_right (orV_left ?_)
-        exact find_isSome (p := fun q => (extractPathParams meth.path).contains q) (a := q)
-          (by unfold queryFieldNames; exact hq'.1) hq'.2
-    · -- a bodiless verb with unbound fields
-      refine orV_right (orV_right ?_)
-      unfold bodilessCheck
-      by_cases hv : (verbOfNum meth.verbNum == "GET".toList || verbOfNum meth.verbNum == "DELETE".toList) = true
-      · simp only [hv, if_true] at hb ⊢
-        obtain ⟨fld, hfld, _⟩ := List.mem_map.mp hb
-        have hfld' := List.mem_filter.mp hfld
-        have : (input.fields.find? (fun f => !(extractPathParams meth.path).contains f.name &&
-            !(queryFieldNames input).contains f.name)).isSome = true :=
-          find_isSome (p := fun f : Field => !(extractPathParams meth.path).contains f.name &&
-            !(queryFieldNames input).contains f.name) (a := fld) hfld'.1
-            (by unfold queryFieldNames; exact hfld'.2)
-        cases hfs : input.fields.find? (fun f => !(extractPathParams meth.path).contains f.name &&
-            !(queryFieldNames input).contains f.name) with
-        | some x => simp
-        | none => rw [hfs] at this; cases this
-      · rw [if_neg hv] at hb; cases hb
-  · simp [hcfg] at hb
 
 /-! ## assembly: every breach inside a generated file stops generation -/
 
@@ -454,17 +73,14 @@ witness `enum_on_map_accepted`). -/
 def NoEnumEncOnMaps (f : File) : Prop :=
   ∀ m ∈ f.messages, ∀ fld ∈ m.fields, fld.card = .map → fld.enumEnc = 0
 
-theorem mem_ite_single {α} {c : Bool} {a r : α} (h : r ∈ (if c = true then [a] else [])) :
-    c = true ∧ r = a := by
-  cases c with
-  | true => simp at h; exact ⟨rfl, h⟩
-  | false => simp at h
-
+/-- a JSON-mapping validator that fires on a generated file stops both Go plugins. -/
 theorem both_reject (rq : Request) (f : File) (hf : f ∈ generated rq) (v : V) (hv : v ∈ requiredJson)
     (h : (applyV rq f true v).isSome = true) :
     (runGoHttp rq).isSome = true ∧ (runGoClient rq).isSome = true :=
   ⟨goHttp_rejects rq f hf v hv h, goClient_rejects rq f hf v hv h⟩
 
+/-- every field-level breach in a generated file stops go-http, and go-client too unless it is an
+unwrap rule (which only go-http validates). -/
 theorem field_breach_rejected (rq : Request) (f : File) (hf : f ∈ generated rq)
     (hmap : NoEnumEncOnMaps f) (m : Message) (hm : m ∈ f.messages) (fld : Field) (hfld : fld ∈ m.fields)
     (r : Rule) (hr : r ∈ fieldBreaches rq fld) :
@@ -534,6 +150,7 @@ theorem field_breach_rejected (rq : Request) (f : File) (hf : f ∈ generated rq
       (perField_isSome f m fld (enumCheck rq) hm hfld (enum_fires rq fld hc.1.1 hnm hc.1.2 hc.2))
     exact ⟨this.1, fun _ => this.2⟩
 
+/-- every oneof-level breach in a generated file stops both Go plugins. -/
 theorem oneof_breach_rejected (rq : Request) (f : File) (hf : f ∈ generated rq)
     (m : Message) (hm : m ∈ f.messages) (o : OneofDecl) (ho : o ∈ m.oneofs)
     (r : Rule) (hr : r ∈ oneofBreaches rq m o) :
@@ -695,7 +312,6 @@ example : let rq : Request := { files := [{ name := "main.proto".toList, generat
   · decide
   · decide
   · decide
-
 
 /-! ## valid definitions that are refused, and a conflict that is not seen (witnesses) -/
 
